@@ -650,3 +650,77 @@ def no_path_text_search(ctx, R, quals, why):
         else:
             out.append(ctx.ok(R, fi, fi.node, "paths are decomposed by position / at separators only", construct=k, nontrivial=False))
     return out
+
+
+def swapped_arguments(ctx, R, modules):
+    """Cross-check of every resolved internal call: two positional arguments that are plain names must not be each other's parameter names
+    (f(dst, src) for def f(src, dst)).  One aggregated instance per module."""
+    out = []
+    for mq in modules:
+        n = 0
+        hit = None
+        for fi in ctx.prog.functions_of_module(mq):
+            for c in body_nodes(fi):
+                if not isinstance(c, ast.Call):
+                    continue
+                tg, ext = ctx.calls.resolve_call(fi, c)
+                for t in tg:
+                    if t.module.is_dep:
+                        continue
+                    params = [p for p in t.params if p not in ("self", "cls")]
+                    argn = [a.id if isinstance(a, ast.Name) else None for a in c.args]
+                    n += 1
+                    for i, a in enumerate(argn):
+                        if a and i < len(params) and a != params[i] and a in params:
+                            j = params.index(a)
+                            if j < len(argn) and argn[j] == params[i]:
+                                hit = hit or (fi, c, t, params[i], params[j])
+        k = f"{mq}|swapped-arguments"
+        if hit:
+            fi, c, t, p1, p2 = hit
+            out.append(ctx.viol(R, fi, c, f"`{canon(c)[:60]}` passes `{p2}` where {t.qual.split(':')[-1]} expects `{p1}` and `{p1}` where it expects `{p2}`: the two roles are exchanged",
+                                construct=k))
+        else:
+            out.append(ctx.ok(R, None, None, f"{mq}: {n} resolved internal calls, no pair of positional arguments exchanged with respect to the callee's parameter names", construct=k, nontrivial=n > 0))
+    return out
+
+
+_LOG_METHODS = ("debug", "info", "warning", "error", "critical", "more", "exception", "warn", "log")
+_LAZY_ATTRS = ("document", "doc", "stores", "data", "statepoint", "sp")
+_EFFECT_CALLS = ("next", "init", "open", "remove", "load", "save", "pop", "popitem", "clear", "update", "move", "reset", "sync", "clone")
+
+
+def pure_logging(ctx, R, modules):
+    """Diagnostics must not do work: the arguments of logging / warning calls neither evaluate the lazy job properties (job.document creates the job directory,
+    job.statepoint may load and register) nor call anything that consumes an iterator or touches the file system."""
+    out = []
+    for mq in modules:
+        n = 0
+        hit = None
+        for fi in ctx.prog.functions_of_module(mq):
+            for c in body_nodes(fi):
+                if not isinstance(c, ast.Call):
+                    continue
+                d = dotted(c.func) or ""
+                is_log = (isinstance(c.func, ast.Attribute) and c.func.attr in _LOG_METHODS and "log" in canon(c.func.value).lower()) or d in ("_print_err", "warnings.warn")
+                if not is_log:
+                    continue
+                n += 1
+                for a in list(c.args) + [k.value for k in c.keywords]:
+                    for x in ast.walk(a):
+                        if isinstance(x, ast.Attribute) and x.attr in _LAZY_ATTRS and isinstance(x.ctx, ast.Load):
+                            t = ctx.calls.type_of(x.value, fi)
+                            if t in ("signac.job:Job", "signac.project:Project") or t is None and isinstance(x.value, ast.Name) and x.value.id in ("job", "src", "dst", "self", "project"):
+                                hit = hit or (fi, c, f"evaluates the lazy property `{canon(x)}`")
+                        if isinstance(x, ast.Call):
+                            nm = (dotted(x.func) or canon(x.func)).split(".")[-1]
+                            if nm in _EFFECT_CALLS:
+                                hit = hit or (fi, c, f"calls `{canon(x)[:40]}`")
+        k = f"{mq}|pure-logging"
+        if hit:
+            fi, c, what = hit
+            out.append(ctx.viol(R, fi, c, f"the diagnostic `{canon(c)[:60]}` {what}: producing a log line changes state (creates a job directory / loads and registers a state point / "
+                                "consumes an iterator), so behaviour depends on the log level and a dry run or a read-only query writes", construct=k))
+        else:
+            out.append(ctx.ok(R, None, None, f"{mq}: {n} logging / warning calls, none evaluates a lazy property or an effectful call", construct=k, nontrivial=n > 0))
+    return out
